@@ -57,3 +57,34 @@ def run_parser_model(ctx, props, cbfail_ok=True):
     return {"distinct": distinct, "generated": generated, "vacuous": never,
             "what": "HtpParser.tla + HtpObs clauses %s as invariants over %d bounded configurations (MaxTx, MaxCalls, MaxAvail, AutoDestroy, CbFail): %s"
                     % (invs, len(cfgs), [c[:4] + (len(c[4]),) for c in cfgs])}
+
+
+# (MaxTx, QUnits, SUnits, MaxAvail, AutoDestroy)
+LIVE_QUICK = [(2, 3, 3, 2, False)]     # the smallest bound in which a broken hand-over (other side not released) is found as a livelock
+LIVE_THOROUGH = [(2, 3, 3, 2, False), (2, 3, 3, 2, True), (3, 4, 2, 2, False), (2, 2, 4, 2, False)]
+
+
+def run_driver_liveness(ctx):
+    """C09, progress half: HtpDriver.tla (the documented caller composed with the parser model) under weak fairness; TLC checks <>Drained."""
+    d = vlib.spec_workdir(ctx)
+    cfgs = LIVE_QUICK if ctx.quick else LIVE_THOROUGH
+
+    def one(i):
+        mt, qu, su, ma, ad = cfgs[i]
+        cfgp = os.path.join(d, "live_%d.cfg" % i)
+        open(cfgp, "w").write("CONSTANTS MaxTx = %d  MaxCalls <- NoCallBound  MaxAvail = %d  AutoDestroy = %s  FixD4 = FALSE  TraceMode = FALSE\n CbFail = {}\n Known = {}\n QUnits = %d  SUnits = %d\n"
+                              "SPECIFICATION FairDSpec\nINVARIANT DrvTypeOK\nPROPERTY CallerProgress\nCHECK_DEADLOCK FALSE\n" % (mt, ma, "TRUE" if ad else "FALSE", qu, su))
+        return vlib.run_tlc(ctx, "HtpDriver", cfgp, workers=16 if ctx.quick else 8, timeout=1200 if ctx.quick else 6000, xmx="12g", name="live_%d" % i, cwd=d)
+    res = vlib.pmap(one, range(len(cfgs)), nproc=2)
+    distinct = 0
+    for c, r in zip(cfgs, res):
+        if r.error:
+            sys.stdout.write(r.out[-3000:])
+            raise vlib.Infra("liveness checking HtpDriver failed: %s (config %s)" % (r.error, c))
+        distinct += r.distinct
+        if r.violated:
+            ctx.violations.append({"clause": "Model:CallerProgress", "sites": [], "cls": "model",
+                                   "what": "TLC: the documented caller composed with the parser model does not always drain a side (config %s): %s" % (c, r.violated),
+                                   "counterexample_tail": r.out[-6000:]})
+    return {"liveness_states": distinct, "liveness_configs": [list(c) for c in cfgs],
+            "liveness": "HtpDriver.tla FairDSpec |= <>Drained (weak fairness on arrivals and on the caller); (MaxTx, QUnits, SUnits, MaxAvail, AutoDestroy)"}
